@@ -168,6 +168,14 @@ theorem decrease_eq (m : Nat) (n : Int) : Gen.Resource.decrease (m : Int) n = if
   unfold Gen.Resource.decrease
   by_cases h : m = 0 <;> simp [h] <;> omega
 
+/-- on a non-negative counter the breaker's admission test is "unlimited or below the limit" -/
+theorem canCreate_iff (m : Nat) (n : Int) (hn : 0 ≤ n) : Gen.Resource.canCreate (m : Int) n = true ↔ (m = 0 ∨ n < m) := by
+  unfold Gen.Resource.canCreate
+  by_cases hm : m = 0
+  · simp [hm]
+  · have hneg : ¬ n < 0 := by omega
+    simp [hm, hneg]
+
 theorem increase_eq (m : Nat) (n : Int) : Gen.Resource.increase (m : Int) n = if m != 0 then n + 1 else n := by
   unfold Gen.Resource.increase
   by_cases h : m = 0 <;> simp [h]
